@@ -180,6 +180,12 @@ def spec(case, mos, io):
                     fails.append("mode %s/%s: the text of the violation of an explicitly enabled contract differs from the normal "
                                  "interpreter's: %s vs %s" % (case["mode"], case["env"], io["broken"][flavour], io["normal"][flavour]))
                 continue
+            if flavour == "refusals":
+                if res != io["normal"][flavour][0] or any(v != "ValueError" for v in res.values()):
+                    fails.append("mode %s/%s: explicitly enabled contracts whose sync condition / capture hands back a coroutine must be "
+                                 "refused with ValueError in every interpreter mode: %s, the normal interpreter %s"
+                                 % (case["mode"], case["env"], res, io["normal"][flavour][0]))
+                continue
             if flavour == "strengthening_override":
                 if res != "TypeError":
                     fails.append("mode %s/%s: an explicitly enabled @require strengthening a base method without preconditions: %s "
